@@ -19,7 +19,7 @@ theorem inv_crash {cfg : Cfg} (hg : cfg.Good) {s : St} {d : Disk} (h : Inv cfg s
   · intro hc; exact absurd rfl hc
   · intro hc; cases hc
   · intro hc; cases hc
-  · intro _; exact ⟨rfl, rfl, rfl⟩
+  · intro _; exact ⟨rfl, rfl, rfl, rfl⟩
   · trivial
 
 theorem inv_exit {cfg : Cfg} {s : St} {d : Disk} (h : Inv cfg s d) : Inv cfg (exitSt s) d := by
@@ -33,7 +33,7 @@ theorem inv_exit {cfg : Cfg} {s : St} {d : Disk} (h : Inv cfg s d) : Inv cfg (ex
   · intro hc; exact absurd rfl hc
   · intro hc; cases hc
   · intro hc; cases hc
-  · intro _; exact ⟨rfl, rfl, rfl⟩
+  · intro _; exact ⟨rfl, rfl, rfl, rfl⟩
   · trivial
 
 /-- `recoverR` reads the last view -/
@@ -92,7 +92,7 @@ theorem inv_recOpen {cfg : Cfg} {s : St} {d : Disk} (h : Inv cfg s d) {s' : St}
   unfold recOpen at hs
   split at hs
   · rename_i hph
-    obtain ⟨hjob, hw, hfz⟩ := h.crashed hph
+    obtain ⟨hjob, hw, hfz, htr⟩ := h.crashed hph
     obtain ⟨mf, v0, v, hparts, hlv, hvl, hvok, hmono⟩ := h.disk.last
     have hcur := hparts.cur
     split at hs
@@ -140,7 +140,9 @@ theorem inv_recOpen {cfg : Cfg} {s : St} {d : Disk} (h : Inv cfg s d) {s' : St}
           obtain ⟨vk, hvk, _, _⟩ := hparts.views k hk
           rw [hvk]
           have := hmg.2 k hk vk hvk
-          refine ⟨(by show vk.sq ≤ r.mv.sq; rw [hrv]; exact this.1), ?_, (fun hr' => by cases hr')⟩
+          refine ⟨(by
+            rw [seqHi_eq (not_trWindow_of_nojob (by exact hjob))]
+            show vk.sq ≤ r.mv.sq; rw [hrv]; exact this.1), ?_, (fun hr' => by cases hr')⟩
           show vk.nf ≤ max r.mv.nf _
           rw [hrv] at hnf ⊢
           exact Nat.le_trans this.2 hnf
@@ -148,7 +150,7 @@ theorem inv_recOpen {cfg : Cfg} {s : St} {d : Disk} (h : Inv cfg s d) {s' : St}
         · intro _
           show Holds (some _) _
           simp only [Holds]
-          refine ⟨?_, ⟨hw, hfz⟩, ?_, (fun o ho => by cases ho), ⟨?_, ?_, hjs⟩, ?_, rfl, fun _ => ?_, ?_,
+          refine ⟨?_, ⟨hw, hfz, htr⟩, ?_, (fun o ho => by cases ho), ⟨?_, ?_, hjs⟩, ?_, rfl, fun _ => ?_, ?_,
             (fun o ho => by cases ho)⟩
           · exact MfdOK.nojob hjob hc.symm
           · rw [journalsFrom_eq hsorted, List.pairwise_map]
